@@ -91,7 +91,20 @@ fn cfgs_for(mode: Mode, tier: Tier) -> Vec<Cfg> {
 
 fn run_mode(ctx: &mut Ctx, mode: Mode) {
     let tier = ctx.tier;
-    let snips = snippets(tier);
+    let mut snips = snippets(tier);
+    if mode == Mode::Diff {
+        // the data-movement families of the C01 MiniCairo space (G3 producers x consumers, G5 liveness,
+        // G6 member routing), here under the whole configuration lattice instead of C01's two corners
+        for case in crate::c01::all_cases(tier) {
+            if ["g3", "g5", "g6"].iter().any(|g| case.name.starts_with(g)) {
+                snips.push(crate::exec::Snip { name: format!("mini:{}", case.name), code: crate::mini::pprog(&case.prog), plain: None, sierra: None });
+            }
+        }
+    }
+    if mode != Mode::Diff {
+        // raw libfunc instantiations over edge types (no front end): C02 only speaks about audited libfuncs
+        snips.extend(crate::exec::inst_snippets(tier, mode == Mode::Vm));
+    }
     let cfgs = cfgs_for(mode, tier);
     let mut dbs = Dbs::default();
     let small = tier == Tier::Quick;
@@ -276,7 +289,7 @@ fn run_c05(ctx: &mut Ctx) {
     }
 }
 
-const SPACE: &str = "Execution space: every `//! > cairo_code` snippet of tests/e2e_test_data (382) plus 24 hand-written programs (loops, recursion, locals across calls and merges, dicts, arrays, enums, early return, panics, closures, u256, signed, hashes), every function `test::*` whose user parameters are scalars (u8..u128, i8..i128, felt252, bool, u256; <=3 params), the full cross product of the boundary domains B(T) (quick: 4 values per parameter, <=64 vectors; thorough: 7-10 values, <=400 vectors)";
+const SPACE: &str = "Execution space: every `//! > cairo_code` snippet of tests/e2e_test_data (382) plus 24 hand-written programs (loops, recursion, locals across calls and merges, dicts, arrays, enums, early return, panics, closures, u256, signed, hashes), every function `test::*` whose user parameters are scalars (u8..u128, i8..i128, felt252, bool, u256; <=3 params), the full cross product of the boundary domains B(T) (quick: 4 values per parameter, <=64 vectors; thorough: 7-10 values, <=400 vectors). Parameters of structured types are generated too (arrays incl. two of length 6, structs, snapshots, NonZero, BoundedInt, bytes31, addresses) and functions taking boxes/options/results/nullables/dicts/user enums are reached through generated Cairo wrappers with scalar parameters. C02/C04/C17 additionally execute the C14 instantiation lattice: one Sierra function per accepted (libfunc, generic arguments) instantiation over edge types (~920 in quick) restricted to the allowed-libfuncs lists (C02: audited; C04/C17: all), on the same boundary inputs - no front end involved";
 
 pub static C02: CheckDef = CheckDef {
     id: "C02",
@@ -317,7 +330,7 @@ pub static C17: CheckDef = CheckDef {
 pub static C05: CheckDef = CheckDef {
     id: "C05",
     level: "exploration",
-    rule: "Execution space with ample gas under every configuration of the lattice (quick: 6 corners {disabled, default, avoid-inlining, inline-all+match-threshold 1, inline-none+skip-const-folding+threshold 1000, legacy solvers+threshold 2}; thorough: the full product Optimizations{Disabled, Enabled x Inlining{Default,Avoid,Small(0|4|1000)} x skip_const_folding} x NumericMatchOptimizationMinArmsThreshold{unset,1,2,1000} x {linear,legacy metadata} = 88 configurations), each compared with Optimizations::Disabled. Oracle: identical RunResultValue (success felts or panic felts); an 'Out of gas' panic on either side is counted inconclusive. Programs that do not compile under a configuration are counted, not judged (C08).",
+    rule: "Execution space (plus the data-movement families G3, G5, G6 of the C01 MiniCairo space: producers x consumers, liveness subsets, every member routing of rebuilt tuples) with ample gas under every configuration of the lattice (quick: 6 corners {disabled, default, avoid-inlining, inline-all+match-threshold 1, inline-none+skip-const-folding+threshold 1000, legacy solvers+threshold 2}; thorough: the full product Optimizations{Disabled, Enabled x Inlining{Default,Avoid,Small(0|4|1000)} x skip_const_folding} x NumericMatchOptimizationMinArmsThreshold{unset,1,2,1000} x {linear,legacy metadata} = 88 configurations), each compared with Optimizations::Disabled. Oracle: identical RunResultValue (success felts or panic felts); an 'Out of gas' panic on either side is counted inconclusive. Programs that do not compile under a configuration are counted, not judged (C08).",
     assumptions: &["ample gas = 5*10^6 (50k steps; unbounded recursions end in Out of gas)", "the corelib-test verdict vectors are covered by the thorough tier only"],
     run: run_c05,
     stack_mb: 16,
